@@ -152,7 +152,7 @@ func newFullStack(n, localMask int, segLimit int64, mhLen int) *fsWorld {
 // publisher answers correctly the same sync succeeds and ends in the state of a
 // fault-free run. Hash collisions on the inputs of the run are excluded (cfg).
 func VerifC04_FullStackFault() {
-	const n = 3
+	n := 3 + verif_Tier() // chain length: 3 (quick), 4 (thorough)
 	seg := verif_Choose("segDepthLimit", 0, 2)
 	segLimit := int64(-1)
 	if seg > 0 {
@@ -241,7 +241,7 @@ func VerifC04_FullStackFault() {
 // newest to oldest; only missing blocks are requested, each once; count, head,
 // notification and latest-synced value follow the specification.
 func VerifC01_FullStack() {
-	const n = 3
+	n := 3 + verif_Tier() // chain length: 3 (quick), 4 (thorough)
 	local := verif_Choose("localMask", 0, 1<<n-1)
 	depth := verif_Choose("depthLimit", 0, n)  // per-call depth limit; 0 = none
 	stopKind := verif_Choose("stop", 0, 2)     // 0 none, 1 latest-synced = oldest block, 2 explicit stop = oldest block
@@ -333,7 +333,7 @@ func VerifC01_FullStack() {
 // depth allows) is reported once, newest to oldest; latest-synced becomes the
 // announced head; one notification carries head, publisher and count.
 func VerifC01_FullStackAnnounced() {
-	const n = 3
+	n := 3 + verif_Tier() // chain length: 3 (quick), 4 (thorough)
 	local := verif_Choose("localMask", 0, 1<<n-1)
 	seg := verif_Choose("segDepthLimit", 0, 2)
 	firstDepth := verif_Choose("firstSyncDepth", 0, 2) // 0 = unlimited
